@@ -295,6 +295,7 @@ def build_evidence(prop, cfg, tier, seed, units, kres, vres, violations, known_h
                                         rule="`assert(false)` spliced after the preconditions of every extracted function in a second Verus run; every probe must fail")
                                    if usum else None)),
         verus_units=usum,
+        k2v_selftest=(vres or {}).get("k2v_selftest"),
         assumption_scan=(vres or {}).get("assumption_scan", []),
         undecided=undecided[:10],
         known_findings=[k.get("text") for k, _ in known_hits],
